@@ -6,7 +6,7 @@ from . import contrib as CB
 LEVEL = "other"
 TECHNIQUE = 'abstract device model (sa/rules/devmodel.py): *STB?, ScpiDevice::scpi_stb, IEEE4882::stb, *CLS, *ESE, *SRE, *OPC, *OPC?, *TST?, *RST, *WAI are interpreted by the FDAI engine on concrete device states; the answer and the final state are compared with the IEEE 488.2 section 11 status model over ESR/ESE pairs and SRE values covering every bit position x queue empty/non-empty x QUES/OPER summary x message-available (1632 states for *STB? in the quick tier); bit numbers from the StatusBit/EventStatusBit discriminants; documented wiring of cls/opc/stb checked on the example device (C13); census: no library code assigns Context.mav; the common-command leaves the macros declare (evaluated witness tree); provided device-trait methods analysed in place'
 LEVEL_TEXT = "For each start state the status byte is computed from the MIR and must equal: bit 2 iff the queue is non-empty, bit 3 / bit 7 iff the QUES / OPER summary is true, bit 4 iff message-available, bit 5 iff ESR & ESE != 0, bit 6 iff one of those is enabled in SRE - and nothing may change. *CLS must leave exactly ESR=0, both event registers 0 and an empty queue with every enable, filter, condition, ESE and SRE untouched; *ESE/*SRE store and read back a u8 and fail without side effect on a conversion error; *OPC sets bit 0 and queues -800; *OPC? answers 1; *TST? answers 0 or the self-test error's code; *RST/*WAI leave the status state alone."
-LEVEL_NOTE = "Not decided: whether a register 'summary' should be event- or condition-based (the property does not say; the code uses condition & enable); histories; devices overriding the default stb/cls/opc. Trusted: rustc MIR, FDAI models."
+LEVEL_NOTE = "Not decided: histories; devices overriding the default stb/cls/opc. Trusted: rustc MIR, FDAI models."
 
 STATUS_BITS = {"Designer0": 0, "Designer1": 1, "ErrorEventQueue": 2, "Questionable": 3, "Mav": 4, "Esb": 5, "RqsMss": 6, "Operation": 7}
 ESR_BITS = {"OperationComplete": 0, "RequestControl": 1, "QueryError": 2, "DeviceDependantError": 3, "ExecutionError": 4, "CommandError": 5, "UserRequest": 6, "PowerOn": 7}
@@ -69,9 +69,11 @@ def run(R, tier):
         return stb
 
     def fresh_dev(esr=0, ese=0, sre=0, nq=0, ques=False, oper=False, tst=None, extra_reg=None):
-        # a register's summary is true when an enabled condition bit is set (bit 15 never counts)
-        regs = {"Operation": DM.mk_register(uc, condition=0x0100 if oper else 0x8001, enable=0x0100 if oper else 0x8000, event=0x0033),
-                "Questionable": DM.mk_register(uc, condition=0x0002 if ques else 0x7FF0, enable=0x0002 if ques else 0x800F, event=0x4400)}
+        # a register set's summary is the OR of its *event* register ANDed with its enable register (SCPI-99 vol. 1 9.1,
+        # IEEE 488.2 11.4.2.1; bit 15 never counts); the condition register takes no part - both states below put the
+        # opposite pattern into `condition` so that a summary computed from it is reported (defect F19)
+        regs = {"Operation": DM.mk_register(uc, event=0x0100 if oper else 0x8001, enable=0x0100 if oper else 0x8000, condition=0x0033 if oper else 0x0100),
+                "Questionable": DM.mk_register(uc, event=0x0002 if ques else 0x7FF0, enable=0x0002 if ques else 0x800F, condition=0x4400 if ques else 0x0002)}
         if extra_reg:
             regs.update(extra_reg)
         return DM.Dev(esr=esr, ese=ese, sre=sre, queue=[SymV("e%d" % i, "e%d" % i) for i in range(nq)], regs=regs, tst=tst)
@@ -128,16 +130,17 @@ def run(R, tier):
                     if not ok and len(bad) < 3:
                         bad.append("ESR=%#04x ESE=%#04x SRE=%#04x queue=%d QUES=%s OPER=%s: %s, expected %#04x" % (esr, ese, sre, nq, ques, oper, [(r.outcome, r.retval) for r, d in rs], exp))
         R.check(not bad, "R16.2", fn.split("::")[-1] if uses_scpi else "IEEE4882::stb", ("bit2/3/7/5 from queue, QUES, OPER, ESR&ESE; " if uses_scpi else "bit5 from ESR&ESE; ") + "bit6 from those & SRE; read-only (%d combinations)" % n, "; ".join(bad), where=b.span)
-    # summary of a register set: an enabled condition bit (bits 0..14)
+    # summary of a register set: an enabled event bit (bits 0..14); the condition register is not looked at
     b = uc.body("scpi_contrib::scpi1999::EventRegister::get_summary")
     bad = []
     for cond, en in ((0, 0), (0xFFFF, 0), (0, 0xFFFF), (0x8000, 0x8000), (0x8000, 0xFFFF), (0xFFFF, 0x8000), (1, 1), (0x4000, 0x4000), (0x0100, 0x0200), (0x7FFF, 0x7FFF), (0x5555, 0xAAAA)):
-        cell = DM.mk_register(uc, condition=cond, enable=en, event=0xFFFF)
-        rs = DM.run(deng, b, DM.Dev(), [RefV(cell)])
-        exp = (cond & en & 0x7FFF) != 0
-        if not (len(rs) == 1 and isinstance(rs[0][0].retval, K) and rs[0][0].retval.v is exp and DM.reg_values(uc, cell) == {"condition": cond, "enable": en, "event": 0xFFFF, "ntr_filter": 0, "ptr_filter": 0}):
-            bad.append("condition=%#06x enable=%#06x: %s, expected %s" % (cond, en, [(r.outcome, r.retval) for r, _ in rs], exp))
-    R.check(not bad, "R16.2", "get_summary", "true iff an enabled condition bit among bits 0..14 is set; read-only", "; ".join(bad[:3]), where=b.span)
+        for other in (0xFFFF, 0):
+            cell = DM.mk_register(uc, event=cond, enable=en, condition=other)
+            rs = DM.run(deng, b, DM.Dev(), [RefV(cell)])
+            exp = (cond & en & 0x7FFF) != 0
+            if not (len(rs) == 1 and isinstance(rs[0][0].retval, K) and rs[0][0].retval.v is exp and DM.reg_values(uc, cell) == {"condition": other, "enable": en, "event": cond, "ntr_filter": 0, "ptr_filter": 0}):
+                bad.append("event=%#06x enable=%#06x condition=%#06x: %s, expected %s" % (cond, en, other, [(r.outcome, r.retval) for r, _ in rs], exp))
+    R.check(not bad, "R16.2", "get_summary", "true iff an enabled event bit among bits 0..14 is set, whatever the condition register holds; read-only", "; ".join(bad[:3]), where=b.span)
 
     # ---- R16.5 *CLS: clears ESR, both event registers and the queue; enables, filters, conditions, SRE/ESE untouched ----
     hb = handler(uc, "ClsCommand", "event")
